@@ -17,6 +17,7 @@ def run(ctx):
     t = ctx.tie("k_faults", k_faults.tie_faults)
     ctx.oracle("o_faults", lambda c: _impl_half(t))
     ctx.oracle("o_faults_block_diagonalize", k_faults.oracle_faults_bd)
+    ctx.oracle("o_library_errors", k_faults.oracle_library_errors)
     return ctx.finish(lambda f: None)
 
 
